@@ -9,6 +9,8 @@
 //   - NULL                   cmp(NULL,NULL)=0, NULL below every non-NULL value (both argument orders)
 //   - conversion coherence   cmp(a,b) = cmp(Convert a, Convert b) and cmp(a, Convert a) = 0, only for values the
 //     reference marks Exact (lossless conversion) — for lossy conversions the law is false by construction
+//   - natural order          for Exact values of numeric, temporal, binary, ENUM, SET and BIT types cmp agrees with the
+//     numeric / chronological / bytewise order of the denoted values (not for collated strings and JSON)
 //   - no panic
 //
 // SQL layer: stored column values: exactly one of a<b, a=b, a>b is TRUE for non-NULL pairs, the three agree with
@@ -361,6 +363,18 @@ func apiLaws(r *core.Run, cat []*g1lib.Spec) {
 				coh++
 				if raws[a].Repr != raws[b].Repr {
 					local[s.Name+"|coherence|"+raws[a].Repr+"×"+raws[b].Repr] = struct{}{}
+				}
+				// the natural order of the denoted values, for kinds that have one beyond doubt
+				if raws[a].Accept > 0 && raws[b].Accept > 0 {
+					if ref, ok := g1lib.RefCompare(s.Kind, raws[a].Want, raws[b].Want); ok {
+						coh++
+						local[s.Name+"|natural-order|"+fmt.Sprint(ref)] = struct{}{}
+						if sign(M[a][b].c) != ref {
+							w := witness(a, b)
+							w["cmp(a,b)"], w["natural order"] = M[a][b].c, ref
+							r.Violation(lawSig("natural-order", s, []g1lib.Raw{raws[a], raws[b]}, raws[a].V, raws[b].V), w)
+						}
+					}
 				}
 				if sign(c.c) != sign(M[a][b].c) {
 					w := witness(a, b)
